@@ -38,6 +38,16 @@ def canon(p):
 out = []
 with open(Conf.get_path(InputFile.GRAMMAR, "Hexagon")) as f:
     grammar = "".join(f.readlines())
+# reference for "reported with the error's name": the class name of what the parser itself raises for the text (independent of the wrapper)
+from lark import Lark
+ref_parser = Lark(grammar, start="fbody", parser="earley")
+def ref_error_name(parts):
+    for b in parts:
+        try:
+            ref_parser.parse(b)
+        except Exception as e:
+            return type(e).__name__
+    return None
 for run in req["runs"]:
     beh = {k: v for k, v in run["behaviors"]}
     delays.clear(); delays.update(run.get("delays", {}))
@@ -62,6 +72,9 @@ for run in req["runs"]:
          "failed_entries": [k for k in res if res[k].exception], "expected_failed": run.get("broken", []),
          "failed_have_no_trees": all(res[k].asts == [] for k in res if res[k].exception),
          "parts_ok": all(len(res[k].asts) == len(beh[k]) for k in res if not res[k].exception)}
+    wrong = [(k, res[k].exception.name, ref_error_name(beh[k])) for k in res if res[k].exception and res[k].exception.name != ref_error_name(beh[k])]
+    r["error_names_ok"] = not wrong
+    r["first_wrong_name"] = wrong[:1]
     if not r["entries_equal"]:
         bad = [k for k in seq if k not in res or canon(res[k]) != canon(seq[k])]
         r["first_difference"] = bad[:3]
@@ -161,6 +174,8 @@ def run(tier):
             why = "pooled result differs from sequential in-process parsing: " + str(r.get("first_difference"))
         elif not r["failed_have_no_trees"] or not r["parts_ok"]:
             why = "a failed entry carries trees / a successful entry has not one tree per part"
+        elif not r.get("error_names_ok", True):
+            why = "a failed entry is not reported with the name of the error the parser raises for it: " + str(r.get("first_wrong_name"))
         if why:
             fails.append({"why": why, "pool": r["pool"], "behaviors": run_["behaviors"][:6], "delays": run_["delays"]})
     for f in fails[:1]:
